@@ -1107,10 +1107,23 @@ impl<T: Serialize + for<'de> Deserialize<'de> + Clone + PartialEq + Send + Sync 
 
         loop {
             // Read entry size
+            let record_offset = file.stream_position().unwrap_or(file_len);
             let mut size_bytes = [0u8; 4];
             match file.read_exact(&mut size_bytes) {
                 Ok(()) => {}
-                Err(e) if e.kind() == std::io::ErrorKind::UnexpectedEof => break,
+                Err(e) if e.kind() == std::io::ErrorKind::UnexpectedEof => {
+                    // 1..3 leftover bytes are a torn (or appended) length prefix
+                    if record_offset < file_len {
+                        stats.corruption_events.push(CorruptionEvent {
+                            file_path: path.to_path_buf(),
+                            corruption_type: CorruptionType::IncompleteWrite,
+                            offset: record_offset,
+                            recovery_action: RecoveryAction::Skipped,
+                        });
+                        stats.entries_failed += 1;
+                    }
+                    break;
+                }
                 Err(e) => return Err(P2PError::Io(e)),
             }
 
